@@ -443,14 +443,30 @@ Proof.
   eapply copy_loop_FP; eauto.
 Qed.
 
+Lemma put_byte_deadline b s : deadline (put_byte b s) = deadline s.
+Proof. unfold put_byte. destruct (cur s); wsimpl; reflexivity. Qed.
+
+Lemma put_byte_FP dl b s0 s : FP dl s0 s -> FP dl s0 (put_byte b s).
+Proof. intros H. unfold put_byte. destruct (cur s); [|exact H]. fp_same. exact H. Qed.
+
 Lemma read_from_FP c fuel : forall chunks s e s', read_from fuel c chunks s = (e, s') -> FP (deadline s) s s'.
 Proof.
   induction fuel as [|f IH]; intros chunks s e s' H; cbn [read_from] in H.
   - inv H. fp_same. apply FP_refl.
   - destruct (cur s) as [m|]; [|inv H; apply FP_refl].
     destruct (_ =? 0).
-    + destruct (flush_frame _ _ _ _ _) as [e1 s1] eqn:Hf. apply flush_frame_FP in Hf.
-      destruct e1; [inv H; exact Hf|]. apply IH in H. eapply FP_trans'; eauto.
+    + destruct chunks as [|[|b ch'] rest]; [inv H; apply FP_refl| |].
+      { destruct rest as [|r1 rest1]; [inv H; apply FP_refl|]. apply IH in H. exact H. }
+      destruct (flush_frame _ _ _ _ _) as [e1 s1] eqn:Hf. apply flush_frame_FP in Hf.
+      destruct e1; [inv H; exact Hf|].
+      assert (Hp : FP (deadline s) s (put_byte b s1)) by (apply put_byte_FP; exact Hf).
+      assert (Hd : deadline (put_byte b s1) = deadline s1) by apply put_byte_deadline.
+      destruct ch' as [|b1 ch1]; [destruct rest as [|r1 rest1]|].
+      * inv H. exact Hp.
+      * apply IH in H. eapply FP_trans'; [exact Hf|]. rewrite <- Hd.
+        eapply FP_trans; [|exact H]. rewrite Hd. apply put_byte_FP, FP_refl.
+      * apply IH in H. eapply FP_trans'; [exact Hf|]. rewrite <- Hd.
+        eapply FP_trans; [|exact H]. rewrite Hd. apply put_byte_FP, FP_refl.
     + destruct chunks as [|ch rest]; [inv H; apply FP_refl|].
       destruct (dropN _ ch) as [|r0 rem]; [destruct rest as [|r1 rest1]|].
       * inv H. fp_same. apply FP_refl.
@@ -1247,14 +1263,27 @@ Proof.
   eapply copy_loop_MW; eauto.
 Qed.
 
+Lemma put_byte_MW c b s : MW c s (put_byte b s).
+Proof.
+  unfold put_byte. destruct (cur s) as [m|] eqn:Hcur; [|apply MW_refl].
+  mw_setcur (MW_refl c s) Hcur.
+Qed.
+
 Lemma read_from_MW c fuel : forall chunks s e s', read_from fuel c chunks s = (e, s') -> MW c s s'.
 Proof.
   induction fuel as [|f IH]; intros chunks s e s' H; cbn [read_from] in H.
   - inv H. apply (MW_A c s _ []); try reflexivity. apply samecur_refl.
   - destruct (cur s) as [m|] eqn:Hcur; [|inv H; apply MW_refl].
     destruct (_ =? 0).
-    + destruct (flush_frame _ _ _ _ _) as [e1 s1] eqn:Hf. apply flush_frame_MW in Hf; [|exact Hcur].
-      destruct e1; [inv H; exact Hf|]. apply IH in H. eapply MW_trans; eauto.
+    + destruct chunks as [|[|b ch'] rest]; [inv H; apply MW_refl| |].
+      { destruct rest as [|r1 rest1]; [inv H; apply MW_refl|]. apply IH in H. exact H. }
+      destruct (flush_frame _ _ _ _ _) as [e1 s1] eqn:Hf. apply flush_frame_MW in Hf; [|exact Hcur].
+      destruct e1; [inv H; exact Hf|].
+      assert (Hp : MW c s (put_byte b s1)) by (eapply MW_trans; [exact Hf|apply put_byte_MW]).
+      destruct ch' as [|b1 ch1]; [destruct rest as [|r1 rest1]|].
+      * inv H. exact Hp.
+      * apply IH in H. eapply MW_trans; eauto.
+      * apply IH in H. eapply MW_trans; eauto.
     + destruct chunks as [|ch rest]; [inv H; apply MW_refl|].
       destruct (dropN _ ch) as [|r0 rem]; [destruct rest as [|r1 rest1]|].
       * inv H. mw_setcur (MW_refl c s) Hcur.
